@@ -576,7 +576,10 @@ class Driver:
             "ucc": self.op_ucc, "vsend": self.op_vsend, "ssend": self.op_ssend,
             "garbage": self.op_garbage, "disconnect": self.op_disconnect, "register_region": self.op_register_region,
             "vack": self.op_vack, "sack": self.op_sack, "objsel": self.op_objsel, "reconnect": self.op_reconnect,
+            "badsend": self.op_badsend, "stall": self.op_stall,
         }
+        self.stalls: List[Tuple[float, float]] = []
+        self.oracle = None      # set by worlds that judge wire IDs (needed to account for used-up proxy IDs)
 
     def schedule(self, steps):
         loop = self.world.env.loop
@@ -733,6 +736,39 @@ class Driver:
         v.sent.setdefault(far, []).append({"pid": pid, "flags": flags, "body": body, "acks": [], "name": "ObjectSelect",
                                            "datagram_resent": L.build_datagram(flags | L.RESENT, pid, 0, body, ())})
         v.send_payload(far, dg, Fate.from_json(st.get("fate")))
+
+    def op_badsend(self, st):
+        """Somebody (an addon, the operator) asks a circuit to send a message that cannot be encoded: the call
+        fails half-way through the encoder the circuit shares with everything it forwards."""
+        from hippolyzer.lib.base.message.message import Block, Message
+        from hippolyzer.lib.base.network.transport import Direction
+        v = self.viewer(st)
+        if v.proxy_udp is None or v.session_idx is None or v.proxy_udp not in self.world.net.transports:
+            return
+        far = self.far(st)
+        region = self.world.region_obj(v.session_idx, far)
+        if region is None or region.circuit is None or not region.circuit.is_alive:
+            return
+        direction = "in" if st.get("dir", "in") == "in" else "out"
+        msg = Message("ChatFromSimulator", Block("ChatData", FromName="someone"),
+                      direction=Direction.IN if direction == "in" else Direction.OUT)
+        n0 = len(self.world.emissions)
+        try:
+            region.circuit.send(msg)
+        except Exception:
+            self.res.fault("send_failed_half_way")
+        if len(self.world.emissions) == n0 and msg.packet_id is not None and self.oracle is not None:
+            # the wire ID was drawn before the encoder failed: it is used up although nothing was emitted
+            m = self.model.assocs.get(v.proxy_udp)
+            if m is not None:
+                self.oracle.laws.note_proxy_originated(self.model.circuit_key(m, far), direction, msg.packet_id)
+
+    def op_stall(self, st):
+        loop = self.world.env.loop
+        t0 = loop.time()
+        loop.stall(st["dur"])
+        self.stalls.append((t0, loop.time()))
+        self.res.fault("process_stalled")
 
     def op_register_region(self, st):
         v = self.viewer(st)
